@@ -146,6 +146,38 @@ def endsFatal : Nat → List IOp → Bool
 
 def maxDepth (n : Nat) (ops : List IOp) : Nat := (depths n ops).foldl max 0
 
+/-! ## The gutter of a rendered error block (`error/display.rs`: `Printer`, `PrintLineBuilder::print`) -/
+
+/-- `n.to_string().len()`. -/
+def digits (n : Nat) : Nat := if n < 10 then 1 else 1 + digits (n / 10)
+termination_by n
+decreasing_by omega
+
+/-- `PrimaryLine::fmt`: the printer of a block is sized from the block's *own* line number. -/
+def printerWidth (lineNumber : Nat) : Nat := digits lineNumber + 1
+
+/-- The padding computed by `PrintLineBuilder::print` with plain subtraction
+(`indent - indent_adjustment - (margin_content.len() + 1)`): `none` is the underflow. The code
+uses `saturating_sub`; `gutter_never_saturates` shows that with the block's own width the two
+agree, i.e. the saturation is never needed. -/
+def gutterPad (width adj marginLen : Nat) : Option Nat :=
+  if adj ≤ width then
+    if marginLen + 1 ≤ width - adj then some (width - adj - (marginLen + 1)) else none
+  else none
+
+/-- … as coded: `indent.saturating_sub(adj).saturating_sub(margin_len + 1)`. -/
+def gutterPadSat (width adj marginLen : Nat) : Nat := width - adj - (marginLen + 1)
+
+/-- The three kinds of line of a block: the `>>> file:line:col` header (no margin content,
+adjustment 1), the empty `|` lines (no margin content), the source line (margin = the number). -/
+def headerPad (n : Nat) : Option Nat := gutterPad (printerWidth n) 1 0
+def blankPad (n : Nat) : Option Nat := gutterPad (printerWidth n) 0 0
+def sourcePad (n : Nat) : Option Nat := gutterPad (printerWidth n) 0 (digits n)
+
+/-- Seeded change C09-r4-3: one printer, sized from the error token's line `e`, also prints the
+context block whose source line is `c`. -/
+def sharedSourcePad (e c : Nat) : Option Nat := gutterPad (printerWidth e) 0 (digits c)
+
 /-! ## An equivalent mutant (sweep m11): `cases_left_to_skip >= 0` instead of `> 0` -/
 
 def ifcaseLoopGe : Int → Nat → Nat → Option Nat
